@@ -1,2 +1,183 @@
-(* Props.C02 — placeholder; theorems are being added (Proofs/DataReadProofs.v). *)
-Require Import PyStr DataRead.
+(* Props.C02 — the fast (numpy) and the reference (normal) data engines return identical
+   curves.  Statements only; proofs in Proofs/DataReadProofs.v, Proofs/RegexSubFacts.v and
+   Proofs/DataSectionProofs.v.
+
+   Reading.  body = the physical lines of one ~A section (Model/Sections.v body_lines).
+   Domain, line by line (dom2_lineb fhex c raw, BOOLEAN and executable): with l = strip raw,
+     * l is empty (blank line), or
+     * l starts with '#' (comment line; no further condition), or
+     * raw is a data line: no '#', no double or single quote, no chr 26 anywhere in raw; none
+       of the three read substitutions of the default read policy fires on l
+       (nomatchb rx l = the pattern matches at no start position = re.search is None);
+       l.split() has exactly c tokens and float() accepts every one of them
+       (is_float_tok fhex, fhex = the float() oracle).
+   The body must contain at least one data line (data_rows body <> []), c >= 1, WRAP NO,
+   DLM SPACE.  line_toks raw = the tokens of a line as the statement reads it (none for a
+   blank or comment line, l.split() otherwise); data_rows body = the non-empty token lists
+   in order; spec_columns fhex c body = map (map (mk_num fhex)) (transpose_n c (data_rows
+   body)): column j = [row_0[j]; row_1[j]; ...] as numeric cells of the token texts
+   (mk_num: a token float() reads as nan is a NaN cell).
+
+   Proved at full strength on that domain (unbounded rows and columns, any padding, tabs,
+   blank and comment lines anywhere including first and last, any line terminator that
+   strip() removes, with or without a final newline):
+     C02_numpy_spec     numpy_engine returns exactly spec_columns (in particular it does
+                        not raise, so lasio does not fall back);
+     C02_normal_spec    normal_engine returns exactly spec_columns, for EVERY list of read
+                        substitutions (default_subs and the hyphen-dropped recommendation of
+                        inspect_data_section are instances);
+     C02_agree          hence both engines return the same columns;
+     C02_sub_identity   re.sub is the identity when the pattern matches nowhere;
+     C02_sow_is_split   sow_regex.findall == str.split on quote-free text (and the AST the
+                        proof is about is the one generated from the source today:
+                        C02_sow_current);
+     C02_sniff          inspect_data_section (once or twice) returns Some c;
+     C02_read_one_data  LASFile.read on such a section (Model/Read.v read_one_data, WRAP NO,
+                        DLM SPACE) returns the same LASFile for every engine option: same
+                        header sections, same curves, same data, NaN/NULL positions
+                        included; the trace flag is o_engine_numpy && o_null_strict, i.e.
+                        with the default options the numpy path really produced the data;
+     C02_read_engines_agree  the same, stated for two option records.
+   Not proved here (covered by the correspondence runs of the harness): that body_lines
+   delimits exactly the lines of the section (line-number bookkeeping of find_sections,
+   skip_header / max_rows — Model/Sections.v, shared with C05), and the whole-file
+   composition `read` over several sections.
+   Oracle / trust assumptions: genfromtxt behaves as Model/DataRead.v genfromtxt_rows /
+   numpy_engine says; fhex (float(tok) succeeds, and to which double); fstr is irrelevant
+   on the domain (no text column). *)
+From Coq Require Import List NArith Bool String.
+Import ListNotations.
+Require Import PyStr Regex Regexes NumLit SectionParse Sections DataRead Read.
+Require Import RegexSubFacts DataReadProofs DataSectionProofs.
+Open Scope string_scope.
+Open Scope list_scope.
+
+Theorem C02_numpy_spec : forall fhex c body,
+  Forall (fun raw => dom2_lineb fhex c raw = true) body -> data_rows body <> [] ->
+  numpy_engine fhex body = Some (spec_columns fhex c body).
+Proof. exact numpy_spec. Qed.
+
+Theorem C02_normal_spec : forall fhex fstr subs c body,
+  (0 < c)%nat ->
+  Forall (fun raw => dom2_lineb fhex c raw = true) body -> data_rows body <> [] ->
+  normal_engine fhex fstr DSpace subs c body = DOk (spec_columns fhex c body).
+Proof. exact normal_spec. Qed.
+
+Theorem C02_agree : forall fhex fstr c body,
+  (0 < c)%nat ->
+  Forall (fun raw => dom2_lineb fhex c raw = true) body -> data_rows body <> [] ->
+  let X := map (map (mk_num fhex)) (transpose_n c (data_rows body)) in
+  numpy_engine fhex body = Some X /\
+  normal_engine fhex fstr DSpace default_subs c body = DOk X /\
+  normal_engine fhex fstr DSpace (drop_hyphen_subs default_subs) c body = DOk X.
+Proof.
+  intros fhex fstr c body Hc H Hne. cbv zeta. fold (spec_columns fhex c body).
+  split; [apply numpy_spec; assumption|]. split; apply normal_spec; assumption.
+Qed.
+
+Theorem C02_sub_identity : forall r t s, nomatchb r [] s = true -> re_sub r t s = s.
+Proof. exact re_sub_nomatch. Qed.
+
+(* nomatchb is "re.search finds nothing" *)
+Theorem C02_nomatch_is_search : forall r s, nomatchb r [] s = negb (re_search r s).
+Proof. exact nomatchb_re_search. Qed.
+
+Theorem C02_sow_is_split : forall s,
+  in_str 34 s = false -> in_str 39 s = false -> re_findall_joined rx_split_sow s = split_ws s.
+Proof. exact sow_is_split. Qed.
+
+Theorem C02_sow_current : rx_split_sow = sow_ast /\ rx_sow = sow_ast.
+Proof. split; [exact sow_is_current|exact sow_inspect_is_current]. Qed.
+
+Theorem C02_sniff : forall fhex subs c body,
+  Forall (fun raw => dom2_lineb fhex c raw = true) body -> data_rows body <> [] ->
+  fst (inspect body subs) = Some c /\ fst (inspect_twice body subs) = Some c.
+Proof. intros. split; [apply (sniff_spec fhex)|apply (sniff_twice_spec fhex)]; assumption. Qed.
+
+Theorem C02_read_one_data : forall fhex fstr numeq o ls ps p l c,
+  hval_is_str (p_wrapped ps) (s2l "YES") = false ->
+  wrap_declared l = false ->
+  (0 < c)%nat ->
+  Forall (fun raw => dom2_lineb fhex c raw = true) (body_lines ls p) ->
+  data_rows (body_lines ls p) <> [] ->
+  read_one_data fhex fstr numeq o ls ps DSpace p l =
+  inl (data_section_result fhex numeq o ps l c (body_lines ls p)).
+Proof. exact read_one_data_dom2. Qed.
+
+Theorem C02_read_engines_agree : forall fhex fstr numeq o1 o2 ls ps p l c,
+  o_null_strict o1 = o_null_strict o2 ->
+  hval_is_str (p_wrapped ps) (s2l "YES") = false ->
+  wrap_declared l = false ->
+  (0 < c)%nat ->
+  Forall (fun raw => dom2_lineb fhex c raw = true) (body_lines ls p) ->
+  data_rows (body_lines ls p) <> [] ->
+  exists l1 l2,
+    read_one_data fhex fstr numeq o1 ls ps DSpace p l = inl l1 /\
+    read_one_data fhex fstr numeq o2 ls ps DSpace p l = inl l2 /\
+    l_version l1 = l_version l2 /\ l_well l1 = l_well l2 /\ l_curves l1 = l_curves l2 /\
+    l_params l1 = l_params l2 /\ l_other l1 = l_other l2 /\ l_custom l1 = l_custom l2 /\
+    l_data l1 = l_data l2 /\
+    l_engine_numpy l1 = (o_engine_numpy o1 && o_null_strict o1) /\
+    l_engine_numpy l2 = (o_engine_numpy o2 && o_null_strict o2).
+Proof. exact read_one_data_engines_agree. Qed.
+
+(* ---- non-vacuity: a concrete body satisfying every hypothesis -------------------------- *)
+(* example float() oracle: decimal literals (the value is irrelevant here) *)
+Definition ex_fhex (t : list N) : option (list N) :=
+  match py_float_dec t with Some _ => Some t | None => None end.
+Definition ex_fstr (t : list N) : list N := t.
+
+Definition ex_body : list (list N) :=
+  [ s2l "# leading comment with 1-2, 3,4 and ""quotes""" ++ [10];
+    s2l "  100.5   -5e-3 +5E+3" ++ [10];
+    [10];
+    s2l "200." ++ [9] ++ s2l ".5" ++ [9; 9] ++ s2l "7  " ++ [13; 10];
+    s2l "   #c" ++ [10];
+    [32; 9; 10];
+    s2l "-0.25 1e10 3" ++ [10];
+    s2l "#last line, no newline" ].
+
+Example C02_ex_dom : Forall (fun raw => dom2_lineb ex_fhex 3 raw = true) ex_body.
+Proof. apply Forall_forall. apply forallb_forall. vm_compute. reflexivity. Qed.
+Example C02_ex_rows :
+  data_rows ex_body =
+  [ [s2l "100.5"; s2l "-5e-3"; s2l "+5E+3"]; [s2l "200."; s2l ".5"; s2l "7"];
+    [s2l "-0.25"; s2l "1e10"; s2l "3"] ] /\ data_rows ex_body <> [] /\ (0 < 3)%nat.
+Proof. split; [vm_compute; reflexivity|]. split; [vm_compute; discriminate|repeat constructor]. Qed.
+Example C02_ex_numpy :
+  numpy_engine ex_fhex ex_body =
+  Some [ [CNum (s2l "100.5"); CNum (s2l "200."); CNum (s2l "-0.25")];
+         [CNum (s2l "-5e-3"); CNum (s2l ".5"); CNum (s2l "1e10")];
+         [CNum (s2l "+5E+3"); CNum (s2l "7"); CNum (s2l "3")] ].
+Proof. vm_compute. reflexivity. Qed.
+Example C02_ex_normal :
+  normal_engine ex_fhex ex_fstr DSpace default_subs 3 ex_body =
+  DOk [ [CNum (s2l "100.5"); CNum (s2l "200."); CNum (s2l "-0.25")];
+        [CNum (s2l "-5e-3"); CNum (s2l ".5"); CNum (s2l "1e10")];
+        [CNum (s2l "+5E+3"); CNum (s2l "7"); CNum (s2l "3")] ].
+Proof. vm_compute. reflexivity. Qed.
+(* three non-blank lines contain a '-' and there are three data lines: the hyphen rule is dropped *)
+Example C02_ex_sniff : inspect_twice ex_body default_subs = (Some 3%nat, drop_hyphen_subs default_subs).
+Proof. vm_compute. reflexivity. Qed.
+(* the domain is not trivial: a run-on "1-2", a decimal comma, a quoted token and a short
+   row are all outside it *)
+Example C02_ex_outside :
+  map (dom2_lineb ex_fhex 2) [s2l "1-2 3"; s2l "1,5 2"; s2l """1"" 2"; s2l "1"; s2l "1 2"]
+  = [false; false; false; false; true].
+Proof. vm_compute. reflexivity. Qed.
+Example C02_ex_single : (* one row, one column *)
+  dom2_lineb ex_fhex 1 (s2l "5") = true /\
+  numpy_engine ex_fhex [s2l "5"] = Some [[CNum (s2l "5")]] /\
+  normal_engine ex_fhex ex_fstr DSpace default_subs 1 [s2l "5"] = DOk [[CNum (s2l "5")]].
+Proof. repeat split; vm_compute; reflexivity. Qed.
+
+Print Assumptions C02_numpy_spec.
+Print Assumptions C02_normal_spec.
+Print Assumptions C02_agree.
+Print Assumptions C02_sub_identity.
+Print Assumptions C02_nomatch_is_search.
+Print Assumptions C02_sow_is_split.
+Print Assumptions C02_sow_current.
+Print Assumptions C02_sniff.
+Print Assumptions C02_read_one_data.
+Print Assumptions C02_read_engines_agree.
